@@ -312,16 +312,59 @@ pub fn judge_history(cfg: &'static dyn Config, lines: &[Line], clauses: u32) -> 
 }
 
 pub fn judge_history_on(cfg: &'static dyn Config, p: &mut dyn ParserObj, lines: &[Line], clauses: u32) -> (Vec<(Outcome, StepInfo)>, Option<Fail>) {
-    let mut model = Model::new();
+    // Usually one model. In the no-allocator build, after a fragment was refused for capacity, two
+    // behaviours are within the statements: the open group is kept as it was (the line left no trace),
+    // or the group is given up. Both candidates are tracked; a line is judged against each, and only
+    // the candidates that agree with what the parser did survive. No surviving candidate = violation.
+    let mut models: Vec<Model> = vec![Model::new()];
     let mut steps = Vec::with_capacity(lines.len());
     let mut fail = None;
     for (i, l) in lines.iter().enumerate() {
         let out = p.parse(&l.bytes, l.decode);
-        let (info, r) = judge_line(cfg, &mut model, l, &out, clauses);
-        if let (Err((e, o)), None) = (&r, &fail) {
-            fail = Some(Fail { line_no: i, expected: e.clone(), observed: o.clone() });
+        let mut survivors: Vec<Model> = Vec::new();
+        let mut first: Option<(StepInfo, Result<(), (String, String)>)> = None;
+        let mut first_model: Option<Model> = None;
+        for m in models.iter() {
+            let mut mc = m.clone();
+            let (info, r) = judge_line(cfg, &mut mc, l, &out, clauses);
+            let capacity_hit = matches!(info.pred, Some(Pred::Reject("exceeds the 384-byte capacity of the no-allocator build")));
+            if r.is_ok() {
+                if capacity_hit && out.is_err() && mc.open.is_some() {
+                    // the alternative: the group was given up
+                    let mut alt = mc.clone();
+                    alt.open = None;
+                    survivors.push(alt);
+                }
+                survivors.push(mc.clone());
+            }
+            if first.is_none() {
+                first = Some((info, r));
+                first_model = Some(mc);
+            }
         }
-        steps.push((out, info));
+        let (info, r) = first.unwrap();
+        if survivors.is_empty() {
+            if let (Err((e, o)), None) = (&r, &fail) {
+                fail = Some(Fail { line_no: i, expected: e.clone(), observed: o.clone() });
+            }
+            models = vec![first_model.unwrap()];
+            steps.push((out, info));
+        } else {
+            // report the surviving candidate's view of the line
+            if r.is_err() {
+                let mut mc = models.iter().find_map(|m| {
+                    let mut c = m.clone();
+                    let (inf, rr) = judge_line(cfg, &mut c, l, &out, clauses);
+                    if rr.is_ok() { Some(inf) } else { None }
+                });
+                steps.push((out, mc.take().unwrap_or(info)));
+            } else {
+                steps.push((out, info));
+            }
+            survivors.dedup_by(|a, b| a.open == b.open && a.unknown == b.unknown);
+            survivors.truncate(4);
+            models = survivors;
+        }
     }
     (steps, fail)
 }
